@@ -66,7 +66,7 @@ def apply_history(shape, hist, sdef, via='dict', work=None, nevaluators=1):
 
 
 def short(hist):
-    return [[h['op'], h.get('name') or W.addr(h['x'])] + ([h['v'].get('n', h['v'].get('v'))] if h['op'] in ('set', 'setname') else []) for h in hist]
+    return [[h['op'], h.get('name') or (W.addr(h['x']) if h['x'][0] else '')] + ([h['v'].get('n', h['v'].get('v'))] if h['op'] in ('set', 'setname') else []) for h in hist]
 
 
 class Worker:
